@@ -76,6 +76,11 @@ pub fn interp1d_linear_unchecked(
             idx += 1;
         }
 
+        // beyond the last knot: out of bounds on the right
+        if tgt[i] > x[n - 1] {
+            idx = n + 1;
+        }
+
         // out of bounds, optionally extrapolate
         if idx == 0 || idx > n {
             match extrapolate {
@@ -99,8 +104,8 @@ pub fn interp1d_linear_unchecked(
                     // extrapolate right
                     else if idx > n {
                         /* print("extrapolating right ", tgt[i]); */
-                        let slope = (y[n] - y[n - 1]) / (x[n] - x[n - 1]);
-                        interp.push(slope * (tgt[i] - x[n]) + y[n]);
+                        let slope = (y[n - 1] - y[n - 2]) / (x[n - 1] - x[n - 2]);
+                        interp.push(slope * (tgt[i] - x[n - 1]) + y[n - 1]);
                     }
                 }
             }
